@@ -17,7 +17,12 @@ def groups(tier):
                          'Shamir::split turns into the manifest shares', **K),
             Group('replica.hash_gate', 'node_admit', 'C21/admit.c', entry='h_receive', replay='tamper',
                   clause='a replica is stored, announced, cached or returned only after its decryption hashed EQUAL to the manifest content hash '
-                         '(and the manifest decoded, met its threshold and is unexpired)', **K)]
+                         '(and the manifest decoded, met its threshold and is unexpired)', **K)] + _more(tier)
+def _more(tier):
+    return [Group('shards.publish_lookup', 'kad_shards', 'C11/shards.c', entry='h_publish_lookup', replace=['chunk_id_to_string'], unwind=8, kind='unbounded', backend=['cvc5', 'z3', 'sat'], replay='republish', timeout=300,
+                  defines=['CXX_FIXED_STORAGE', 'CXX_VEC_CAP=4'],
+                  bound=None, clause='publish_shards (E2, all prior entry states, all TTLs 0..1e9 s, all clock readings): the entry holds exactly the published '
+                         'share set, threshold and share count with deadline now + ttl; shard_record returns exactly that before the deadline and nothing after')]
 def replay(group, trace):
     """two REAL nodes: store on S, import on R; round trip and tamper rejection"""
     return _replay(group.replay)
